@@ -723,6 +723,49 @@ pub fn run_directed_f2() -> (String, String, String) {
     (r.case, r.res.join(" | "), r.verdict.unwrap_or_else(|| "ok".to_string()))
 }
 
+/// Directed, oracle only (C12): a key pinned at exactly 2^64-1 is flushed and the store restarted;
+/// afterwards no automatically timestamped write on any other key may be refused as older (the pin
+/// must not leak into the clock shards through recovery).
+pub fn run_directed_pin_restart(path: &str) -> (String, String, String) {
+    let cfg = Cfg { extreme: true, persistent: true, cache: false, ttl: false, version: 3, limit: None, blocks: 4096, focus: 0, autocheck: true };
+    let _ = std::fs::remove_file(path);
+    let case = "note directed=pin-restart".to_string();
+    let run = || -> Result<(), String> {
+        let store = open(&cfg, path).map_err(|e| format!("cannot-create-store {e}"))?;
+        store.insert_with_timestamp(b"pinned-A", b"v", Some(u64::MAX)).map_err(|e| format!("pin-refused {e}"))?;
+        for i in 0..40 {
+            store.insert(format!("before-{i}").as_bytes(), b"x").map_err(|e| format!("automatic-insert-refused-before-the-restart {e}"))?;
+        }
+        store.flush().map_err(|e| format!("flush-failed {e}"))?;
+        drop(store);
+        for round in 0..2 {
+            let store = open(&cfg, path).map_err(|e| format!("cannot-reopen {e}"))?;
+            for i in 0..300 {
+                let k = format!("fresh-{round}-{i}");
+                for step in 0..3 {
+                    let r = match step {
+                        0 | 1 => store.insert(k.as_bytes(), b"y").map(|_| ()),
+                        _ => store.delete(k.as_bytes()),
+                    };
+                    if let Err(e) = r {
+                        return Err(format!("automatically-timestamped-write-refused-on-a-never-pinned-key-after-a-restart key={k} step={step} error={e}"));
+                    }
+                }
+            }
+            store.flush().map_err(|e| format!("flush-failed {e}"))?;
+            drop(store);
+        }
+        Ok(())
+    };
+    let verdict = match std::panic::catch_unwind(std::panic::AssertUnwindSafe(run)) {
+        Ok(Ok(())) => "ok".to_string(),
+        Ok(Err(e)) => format!("FAIL {e}"),
+        Err(_) => "FAIL an-api-call-panicked".to_string(),
+    };
+    let _ = std::fs::remove_file(path);
+    (case, "note".to_string(), verdict)
+}
+
 pub fn configs(extreme: bool) -> Vec<Cfg> {
     let mut v = Vec::new();
     for ttl in [false, true] {
@@ -788,6 +831,10 @@ pub fn run(opts: &Opts) -> i32 {
             let mut tiers = [0u64; 3];
             if sh == 0 && directed {
                 let (case, res, verdict) = run_directed_f2();
+                out.emit3(&case, &res, &verdict);
+            }
+            if sh == 1 && directed {
+                let (case, res, verdict) = run_directed_pin_restart(&format!("{scratch}/seq_pin_restart.feox"));
                 out.emit3(&case, &res, &verdict);
             }
             loop {
